@@ -117,11 +117,25 @@ class Ctx:
 
 
 # -------------------------------------------------------------------- parallel replay
+class ImplFailure:
+    """A valid call into gbasis raised: a verdict on the code (violation), not a machinery failure."""
+
+    def __init__(self, msg):
+        self.msg = msg
+
+
 def _call(args):
     fn, item = args
     try:
         return ("ok", fn(item))
-    except Exception:  # noqa: BLE001  (reported as machinery failure by the caller)
+    except Exception as exc:  # noqa: BLE001
+        repo = os.path.abspath(os.environ.get("GBV_REPO", "/repo")) + os.sep
+        frames = traceback.extract_tb(exc.__traceback__)
+        inrepo = [f for f in frames if os.path.abspath(f.filename).startswith(repo)]
+        if inrepo:
+            f = inrepo[-1]
+            return ("impl", "a valid call raised %s inside gbasis (%s:%d in %s): %s" % (
+                type(exc).__name__, os.path.relpath(f.filename, repo), f.lineno, f.name, exc))
         return ("err", traceback.format_exc())
 
 
@@ -138,8 +152,19 @@ def pmap(fn, items, nproc=None):
     for kind, r in res:
         if kind == "err":
             raise tlc.MachineryError("replay worker failed:\n" + r)
-        out.append(r)
+        out.append(ImplFailure(r) if kind == "impl" else r)
     return out
+
+
+def impl_failure(ctx, r, case, module, function="(call into gbasis)"):
+    """Record an ImplFailure as a violation; returns True if r was one."""
+    if not isinstance(r, ImplFailure):
+        return False
+    ctx.replayed += 1
+    cc = {k: v for k, v in case.items() if k != "tlc"} if isinstance(case, dict) else case
+    ctx.violation({"function": function, "exception": True}, "case %s: %s" % (
+        case.get("id") if isinstance(case, dict) else "?", r.msg), {"module": module, "case": cc})
+    return True
 
 
 def run_models_parallel(jobs):
